@@ -19,8 +19,17 @@ def posOnly : Outcome → String
   | .crash n => s!"crash {n}"
   | .fuelOut => "div"
 
+/-- the C01 driver's answer without its language-level verdicts (`sentence-rejected…`: a table whose
+conflicts were settled by precedence rejects sentences on purpose — C01's known finding, not a matter
+of error positions) -/
+def baseFor (args : List Nat) : String :=
+  let ls := (C01.handle args).splitOn "\n"
+  let kept := ls.filter (fun l => !l.startsWith "V fail sentence-rejected")
+  let hasV := kept.any (fun l => l.startsWith "V ")
+  "\n".intercalate (if hasV then kept else "V ok" :: kept)
+
 def handle (args : List Nat) : String :=
-  let base := C01.handle args
+  let base := baseFor args
   match C01.parseReq args with
   | none => base
   | some P =>
